@@ -170,6 +170,7 @@ class World:
         self.data = wrap(spec["data"], ("s",), self.trace)
         self.funcs = Funcs()
         self.funcs._trace = self.trace      # f.flaky(x) is a fault point of the evaluation kind
+        self.funcs._data = self.data        # f.touch(x) leaves a mark in the data when it is evaluated
         self.m = Manager()
         if spec.get("refattr"):
             # container registered with Manager.refattr(): attribute access on the ref means item access on the container
@@ -221,13 +222,19 @@ class World:
         reads, writes, kind = self.spec["funs"][fid]
         data_roots = {"s": self.data, "f": self.funcs}
         trace = self.trace
+        via_refs = self.spec.get("fun_via_refs")
 
         def action():
             trace.calls.append(fid)
             vals = [T.get_path(data_roots, p) for p in reads]
             outs = fun_semantics(kind, vals, len(writes))
             for p, v in zip(writes, outs):
-                T.set_path(data_roots, p, v)
+                if via_refs:
+                    # the action assigns its targets through the manager's references (the pattern of the repository's own
+                    # test_function_task): a nested plain-value set_value per target
+                    self.assign(p, v)
+                else:
+                    T.set_path(data_roots, p, v)
         return action
 
     # -- operations ------------------------------------------------------
